@@ -168,6 +168,7 @@ def execute(plan, tape):
     shared_dict = {}        # client -> the one dict object it keeps re-using
     shared_bp = {}          # client -> blueprint content of that dict
     parsers = {}            # client -> its long-lived SmtLibParser
+    models = {}             # client -> its long-lived (partial) EagerModel
 
     def probe(n):
         probes[n] = probes.get(n, 0) + 1
@@ -186,7 +187,7 @@ def execute(plan, tape):
                 elif sig2[0] == k and sig2[1] != json.dumps({a: b for a, b in spec.items() if a not in ("client",)}, sort_keys=True):
                     nontrivial = True
                     probe("same_formula_different_arguments")
-        key = json.dumps({a: b for a, b in spec.items() if a not in ("client", "_dict", "_parser", "_foreign", "_others", "_first", "_first_out")}, sort_keys=True)
+        key = json.dumps({a: b for a, b in spec.items() if a not in ("client", "_dict", "_parser", "_foreign", "_others", "_first", "_first_out", "_model")}, sort_keys=True)
         touched.append((spec["client"], subcache[i], (k, key)))
         if len(touched) > 40:
             touched.pop(0)
@@ -203,6 +204,12 @@ def execute(plan, tape):
                 shared_dict[c][bp.build(kt, env)] = bp.build(vt, env)     # in-place update of the client's dict
             spec["_dict"] = shared_dict[c]
             probe("shared_dict_updated_in_place")
+        if k == "model_value_shared":
+            if spec["client"] not in models:
+                models[spec["client"]] = calls.partial_model(env, symbols)
+            else:
+                probe("shared_model_reused")
+            spec["_model"] = models[spec["client"]]
         if k == "foreign":
             if i not in foreign_built:
                 continue
@@ -244,6 +251,9 @@ def execute(plan, tape):
                 ff, fresh_build = None, type(ex).__name__
             if ff is not None and f is not None:
                 fspec = spec
+                if k == "model_value_shared":
+                    fspec = dict(spec)
+                    fspec["_model"] = calls.partial_model(fresh, symbols)
                 if k == "resimplify":
                     fspec = dict(spec)
                     fspec["_first"] = spec.get("_first_out")
@@ -261,7 +271,7 @@ def execute(plan, tape):
                     fspec["_dict"] = dict((bp.build(kt, fresh), bp.build(vt, fresh))
                                           for kt, vt in shared_bp[spec["client"]].values())
                 spec_out = calls.outcome(fresh, fspec, ff, term, user) if fspec is not None else aged
-        for k_ in ("_dict", "_parser", "_foreign", "_others", "_first", "_first_out"):
+        for k_ in ("_dict", "_parser", "_foreign", "_others", "_first", "_first_out", "_model"):
             spec.pop(k_, None)
         if aged_build != fresh_build:
             raise Violation("C14:build:history-dependent",
